@@ -3,3 +3,7 @@ From SeqIO Require Import Model.Run.
 Require Import ExtrOcamlBasic.
 Extraction Language OCaml.
 Extraction "../ocaml/model.ml" run_line.
+
+(** the parallel protocol model: trace acceptance for the shuttle harness *)
+From SeqIO Require Import Model.Par.
+Extraction "../ocaml/par.ml" accepts first_reject apply run init_state final enabled deadlocked measure mkConfig.
